@@ -17,6 +17,7 @@ DOC = {
         'C15.R1': 'every io::Result produced on the group path is PROPAGATED / RETURNED / LOGGED / ERR-RETURNED; closures receiving an io::Result do not discard it silently; named exceptions only',
         'C15.R2': 'hash_file_or_log_err / hash_transformed_or_log_err / file_info_or_log_err: Err -> log (except NotFound) -> None; Ok -> Some',
         'C15.R3': 'no unwrap()/expect() on an io::Result in any body reachable from group_files (named exceptions)',
+        'C15.R9': 'readable files are not lost to descriptors leaked by OTHER files: helper threads that can block are joined (re-evaluates C19.R8)',
         'C15.R8': 'an entry of the stdin list that cannot be a path at all (it contains a NUL byte) is left out alone, with a warning, instead of aborting the run in Path::from (re-evaluates C09.R12 no-nul-line)',
         'C15.R7': 'a file that cannot be read completely (it shrank after the scan) is never reported: the hasher compares the scanned length with the length of the open file (re-evaluates C01.R10)',
         'C15.R6': 'an unreadable or vanished path of an inode group (hard links) is left out alone: the hashing task goes on with the next path of the file (re-evaluates C03.R5)',
@@ -86,6 +87,8 @@ def run(ctx):
     reevaluate(ctx, 'C15.R7', c01.r10)
     from . import c09
     reevaluate(ctx, 'C15.R8', c09.r12d)
+    from . import c19
+    reevaluate(ctx, 'C15.R9', c19.r8)
     from .common import run_mandatory
     run_mandatory(ctx, 'C15')
     if ctx.tier == 'thorough' and not getattr(ctx, 'sibling', None):
